@@ -46,8 +46,17 @@ let handle (line : string) : string =
   | ["S"; cfg; ops] -> scenario cfg (split_on ';' ops)
   | "X" :: _ -> "X lost=0 dup=0 phantom=0 futures_bad=0 after_destroy=0 over_max=0"
   | ["O"] -> "O threads=1 max=1"
+  | ["R"] ->
+    (* the model's spawn is one step (SSpawnDone: created and registered): a worker cannot leave before it is registered,
+       so after it has left a new submission spawns again and runs *)
+    let p0 = pool_init (n_of_int 0) (n_of_int 1) (n_of_int 16) in
+    let run p l = List.fold_left (fun p s -> fst (pool_step true p s)) p l in
+    let p1 = run p0 [SSubmit (n_of_int 1); SSpawnDone; STake O; SFinish O; SIdleExit O; SSubmit (n_of_int 2); SSpawnDone; STake O; SFinish O] in
+    let second = List.exists (fun t -> int_of_n t = 2) p1.p_done in
+    Printf.sprintf "R second-task-ran=%d ran-before-destruction=%d" (if second then 1 else 0) (List.length p1.p_done)
   | "Y" :: _ -> "Y accepted_minus_ran=0 ran_later=0"
   | "N" :: _ -> "N refused=0 lost=0"
+  | "I" :: _ -> "I stuck=0"
   | "Z" :: _ -> "Z never_ran=0 futures_not_ready=0 started_after_return=0 left_queued=0"
   | _ -> "BADCASE"
 
